@@ -50,14 +50,11 @@ Definition lower_ascii (c : N) : N := (if (65 <=? c) && (c <=? 90) then c + 32 e
 Definition BYTES : str := [98; 121; 116; 101; 115]%N.
 
 (* byte_range_pattern.fullmatch(brange) -> the two groups.  The pattern is
-   ws* digits* ws* '-' ws* digits* ws*  (digits = ASCII 0-9, ws = the regex class \s) *)
+   ws* digits* '-' digits* ws*  (digits = ASCII 0-9, ws = the regex class \s) *)
 Definition parse_spec (b : str) : option (str * str) :=
-  match partition_at DASH b with
+  match partition_at DASH (strip_ws b) with
   | None => None
-  | Some (l, r) =>
-      let l := strip_ws l in
-      let r := strip_ws r in
-      if all_digits l && all_digits r then Some (l, r) else None
+  | Some (l, r) => if all_digits l && all_digits r then Some (l, r) else None
   end.
 
 Inductive ranges :=
